@@ -60,6 +60,15 @@ def roundtrip(g, scfg, semantic=True):
         raise M.Viol(f"S-to_yaml-raise:{type(e).__name__}@{lib_frame(e)}", f"to_yaml of the re-read graph raised {type(e).__name__}: {e}")
     if y2 != y:
         raise M.Viol("S-yaml-stable", "to_yaml(from_yaml(y)) != y")
+    if canon.dump(scfg, ordered=False) != ref:
+        raise M.Viol("S-mutates", "writing the graph (to_dict / to_yaml) changed the graph")
+    try:
+        if scfg.to_dict() != d or scfg.to_yaml() != y:
+            raise M.Viol("S-again", "writing the same graph a second time gives a different dictionary / YAML text")
+    except M.Viol:
+        raise
+    except Exception as e:
+        raise M.Viol(f"S-to_dict-raise:{type(e).__name__}@{lib_frame(e)}", f"second write raised {type(e).__name__}: {e}")
     for lab, s in (("dict", s2), ("yaml", s3)) if semantic else ():
         try:
             M.walk_regions(g, s)
